@@ -13,11 +13,16 @@ from common import cZ, cN, cnat, cbool, clist
 THEORY = "C09"
 
 
-def impl_run(cap, pol, ops):
+def impl_run(cap, pol, ops, start=0):
+    """start: the number of arrivals the receiver has already counted (a very long earlier history: the only state such
+    a history leaves behind is the counter); the observed numbers are reported relative to it"""
     from qmi.core.pubsub import QMI_SignalReceiver, QMI_SignalMessage
     from qmi.core.messaging import QMI_MessageHandlerAddress as Addr
     from qmi.core.exceptions import QMI_TimeoutException
     r = QMI_SignalReceiver(cap, QMI_SignalReceiver.DISCARD_OLD if pol == "old" else QMI_SignalReceiver.DISCARD_NEW)
+    if start:
+        from common import poke
+        poke(r, "_receiver_seqnr", start)
     src, dst = Addr("ctx", "pub"), Addr("ctx", "$pubsub")
     outs = []
     for o in ops:
@@ -29,7 +34,7 @@ def impl_run(cap, pol, ops):
                 s = r.get_next_signal(0)
                 ok = (s.publisher_context == "ctx" and s.publisher_name == "pub" and s.signal_name == "sig"
                       and isinstance(s.args, tuple) and len(s.args) == 1)
-                outs.append(("sig", s.args[0], s.receiver_seqnr) if ok else ("weird", repr(s)))
+                outs.append(("sig", s.args[0], s.receiver_seqnr - start) if ok else ("weird", repr(s)))
             except QMI_TimeoutException:
                 outs.append(("timeout",))
         elif o[0] == "D":
@@ -147,6 +152,31 @@ def gen_cases(ck):
             ops.append(("A", rng.randint(-5, 1000)) if k == "A" else (k,))
         cases.append((cap, pol, ops, "random"))
     return cases
+
+
+LONG_STARTS = [2 ** 31 - 2, 2 ** 32 - 3, 2 ** 32 - 1, 2 ** 53 - 2, 2 ** 63 - 2, 2 ** 64 - 3, 10 ** 30]
+
+
+def run_long_history(ck):
+    """the sequence numbers after a VERY long history (counter near 2**31, 2**32, 2**53, 2**63, 2**64, beyond): the
+    numbers keep increasing and gaps keep counting the losses (Python integers do not wrap; the model's nat neither)"""
+    rng = ck.rng
+    for start in LONG_STARTS:
+        for pol in ("old", "new"):
+            for cap in (1, 2, 5):
+                ops = []
+                for _ in range(rng.randint(8, 14)):
+                    ops.append(("A", len(ops)) if rng.random() < 0.65 else ("G",))
+                ops += [("G",)] * 3
+                outs = impl_run(cap, pol, ops, start=start)
+                ck.note_case(("long", start, pol, cap, tuple(ops)), True)
+                ck.count("long-history")
+                for f in (oracle, oracle_order):
+                    why = f(cap, pol, ops, outs)
+                    if why:
+                        ck.report("oracle:long-history", "C09 fails on the implementation after %d earlier arrivals: %s" % (start, why),
+                                  {"cap": cap, "policy": pol, "ops": ops, "start": start, "impl_outputs": outs})
+                        break
 
 
 def scenario_blocking(s, timeout, arrive_at, n_arrivals):
@@ -466,6 +496,7 @@ def run(ck):
     ]
     ck.assumptions = ["the history model uses get_next_signal(0); the blocking form is exercised separately (reader + arriver threads under dsched: returns at the arrival instant, times out at the deadline)",
                       "payloads are integers standing for arbitrary args tuples (the queue never inspects them)"]
+    run_long_history(ck)
     run_blocking(ck)
     run_task_drain(ck)
     run_readers(ck)
@@ -558,7 +589,7 @@ def replay(rep):
         print(res["status"], res.get("obs"), why or "property holds on this schedule")
         return 1 if why else 0
     ops = [tuple(o) for o in c["ops"]]
-    outs = impl_run(c["cap"], c["policy"], ops)
+    outs = impl_run(c["cap"], c["policy"], ops, start=c.get("start", 0))
     print("implementation outputs:", outs)
     why = oracle(c["cap"], c["policy"], ops, outs) or oracle_order(c["cap"], c["policy"], ops, outs)
     print("oracle:", why or "property holds on this history")
